@@ -1,13 +1,13 @@
 PROP = {
     "num": 4,
-    "runs": [{"tag": "c04", "bin": "c04"},
+    "runs": [{"tag": "c04", "bin": "c04", "features": ["forms"]},
              # optimised build of the same cases: no debug assertions, no overflow checks, inlined unsafe paths
-             {"tag": "c04rel", "bin": "c04", "profile": "release", "tiers": ["thorough"]},
+             {"tag": "c04rel", "bin": "c04", "features": ["forms"], "profile": "release", "tiers": ["thorough"]},
              # a SOURCE iterator that panics inside from_iter / try_from_iter / the boxed forms, at every poll index
              {"tag": "c04src", "bin": "c07", "args": ["--only", "panics"], "num": 7},
              # box_arr![x; N] (both repeat forms) with an element whose Clone::clone panics at call k: every identity
              # created is released exactly once (direct oracle)
-             {"tag": "c04macros", "bin": "c04", "args": ["--macros"], "model": False}],
+             {"tag": "c04macros", "bin": "c04", "features": ["forms"], "args": ["--macros"], "model": False}],
     "mismatch_is_failing": True,
     "rule": "every operation (map x4 receiver forms, zip x9 stack forms + Box x Box, fold x4, generate x4 (stack, boxed, through &S / &mut S), GenericArray::clone, Default, and GenericArrayIter::clone / fold / rfold from every (front, back) position) x N in 0..=5 and 33 (thorough 0..=8, 16, 33) x an injected panic at every call index (and none); generate also with zero-sized drop-counted elements (live count must return to 0); source-iterator panics are covered by the C07 run. distinct = distinct CASE lines; non-trivial = a panic is injected (fifth integer >= 0)",
     "nontrivial": lambda case, obs: int(case.split()[4]) >= 0,
